@@ -1,11 +1,11 @@
 package props
 
 import (
-	"strings"
 	"bytes"
 	"fmt"
 	"math"
 	"reflect"
+	"strings"
 
 	dproto "github.com/cloudwego/dynamicgo/proto"
 	"google.golang.org/protobuf/encoding/protowire"
@@ -522,4 +522,59 @@ func pShuffleWire1(r *h.Rand, b []byte, md protoreflect.MessageDescriptor, depth
 		out = append(out, g.data...)
 	}
 	return out
+}
+
+// pPadTo128 re-sizes parts of m so that entered containers have an encoded length that is a multiple of 128 (the
+// first length whose varint prefix has a continuation byte): packed fixed-width lists get 128 or 256 bytes of
+// elements, singular sub-messages are padded through one of their string/bytes fields. Returns how many containers
+// were sized that way.
+func pPadTo128(r *h.Rand, m protoreflect.Message, depth int) int {
+	n := 0
+	fds := m.Descriptor().Fields()
+	for i := 0; i < fds.Len(); i++ {
+		fd := fds.Get(i)
+		width := 0
+		switch fd.Kind() {
+		case protoreflect.Fixed32Kind, protoreflect.Sfixed32Kind, protoreflect.FloatKind:
+			width = 4
+		case protoreflect.Fixed64Kind, protoreflect.Sfixed64Kind, protoreflect.DoubleKind:
+			width = 8
+		}
+		switch {
+		case fd.IsList() && fd.IsPacked() && width > 0 && r.Bool():
+			l := m.Mutable(fd).List()
+			l.Truncate(0)
+			for k := 128 * (1 + r.Intn(2)) / width; k > 0; k-- {
+				l.Append(pScalar(r, fd, PValCfg{}))
+			}
+			n++
+		case fd.Message() != nil && !fd.IsList() && !fd.IsMap() && depth < 3:
+			sub := m.Mutable(fd).Message()
+			n += pPadTo128(r, sub, depth+1)
+			sfds := sub.Descriptor().Fields()
+			for j := 0; j < sfds.Len(); j++ {
+				sfd := sfds.Get(j)
+				if sfd.IsList() || sfd.IsMap() || (sfd.Kind() != protoreflect.StringKind && sfd.Kind() != protoreflect.BytesKind) {
+					continue
+				}
+				done := false
+				for p := 1; p < 420 && !done; p++ {
+					if sfd.Kind() == protoreflect.StringKind {
+						sub.Set(sfd, protoreflect.ValueOfString(strings.Repeat("p", p)))
+					} else {
+						sub.Set(sfd, protoreflect.ValueOfBytes(bytes.Repeat([]byte{'p'}, p)))
+					}
+					if sz := proto.Size(sub.Interface()); sz%128 == 0 {
+						done = true
+						n++
+					}
+				}
+				if done {
+					break
+				}
+				sub.Clear(sfd)
+			}
+		}
+	}
+	return n
 }
